@@ -82,6 +82,17 @@ def _product_form(eng, mb, info, lid):
     return ("elem", it, lid), args[0], args[1], start[1]
 
 
+def _divmod_form(info, lid, is_sat_count, is_sig_count):
+    """True-ish when the loop iterates range(<sat count> * <sig count>) (either order of the factors)."""
+    it = info.get("iter", ("?",))
+    if not (it[0] == "call" and it[2] == ("builtin", "range") and len(it[3]) == 1 and not it[4]):
+        return None
+    n = it[3][0]
+    if n[0] == "bin" and n[1] == "*" and ((is_sat_count(n[2]) and is_sig_count(n[3])) or (is_sat_count(n[3]) and is_sig_count(n[2]))):
+        return n
+    return None
+
+
 def run(eng, ctx, layout_only=False):
     """layout_only: D1/D2 only (what decides whether an MSM message with given masks can be decoded at all - shared with C10)."""
     T = eng.tables
@@ -145,6 +156,14 @@ def run(eng, ctx, layout_only=False):
                 m["inserts"].append(("dict", e.target[1][2], e))
             elif e.kind == "call" and e.term[2][0] == "attr" and e.term[2][2] == "append" and e.term[2][1][0] == "loop" and e.term[2][1][1] == lid:
                 m["inserts"].append(("list", e.term[2][1][2], e))
+        if info.get("comp") and not m["inserts"]:
+            # list comprehension filtered by the bit test: the list receives one element per set bit, in scan order
+            comp_terms = {st for v in list(se.final.env.values()) + [x.term for x in se.effects] for st in subterms(v) if isinstance(st, tuple) and len(st) == 4 and st[0] == "comp" and st[1] == "ListComp" and st[3] == lid}
+            if len(comp_terms) == 1 and len(info.get("conds", [])) == 1 and info["conds"][0] == sc["test"]:
+                ct = next(iter(comp_terms))
+                m["cont"], m["kind"], m["cont_out"] = "<comprehension>", "list", ct
+                m["counts"].add(("lenof", ct))
+                m["comp_elt"] = ct[2]
         if len(m["inserts"]) == 1:
             kind, cname, e = m["inserts"][0]
             outer_lid = sc["loop"][0]
@@ -279,7 +298,8 @@ def run(eng, ctx, layout_only=False):
             ctx.check(ok, "C09.D2", mb.qualname, "satellite map key", expected="ordinal of the set bit, counted from 1", found=show(sets[0].target[2])[:60] if sets else "no store", **eng.loc(mb, (sets or scans[sat_field]["effects"])[0].node))
     if sig_field in scans:
         apps = [e for e in scans[sig_field]["effects"] if e.kind == "call" and e.term[2][0] == "attr" and e.term[2][2] == "append"]
-        ctx.check(len(apps) == 1, "C09.D2", mb.qualname, "signal labels appended in scan order", expected="one append under the bit test", found=f"{len(apps)} append(s)", **eng.loc(mb, (apps or scans[sig_field]["effects"])[0].node))
+        iscomp = model[sig_field].get("comp_elt") is not None
+        ctx.check(len(apps) == 1 or (iscomp and not apps), "C09.D2", mb.qualname, "signal labels appended in scan order", expected="one append under the bit test (or a list comprehension filtered by it)", found=f"{len(apps)} append(s)", **eng.loc(mb, (apps or scans[sig_field]["effects"])[0].node))
     # cell scan
     if cell_field in scans and sat_field in model and sig_field in model and (model[sat_field]["counts"] and model[sig_field]["counts"]):
         sc = scans[cell_field]
@@ -301,6 +321,23 @@ def run(eng, ctx, layout_only=False):
             if sets and msat["cont_out"] is not None and msig["cont_out"] is not None:
                 want_v = ("tuple", (("idx", msat["cont_out"], ("bin", "+", s_t, ("const", 1))), ("idx", msig["cont_out"], g_t)))
                 ctx.check(sets[0].term == want_v, "C09.D2", mb.qualname, "cell label", expected="(satmap[sat + 1], sigs[sig]) for the pair (sat, sig)", found=show(sets[0].term)[:140], **eng.loc(mb, sets[0].node))
+        elif len(sc["loop"]) == 1 and _divmod_form(loops[sc["loop"][-1]], sc["loop"][-1], lambda t: is_count(t, msat), lambda t: is_count(t, msig)) is not None:
+            # single loop over range(NSat*NSig) with (sat, sig) = divmod(position, NSig): row-major, satellites slowest
+            elem = ("elem", loops[sc["loop"][-1]].get("iter"), sc["loop"][-1])
+            symc = lambda t: "o" if t == elem else ("NS" if is_count(t, msat) else ("NG" if is_count(t, msig) else show(t)))  # noqa: E731
+            E = to_poly(sc["E"], symc)
+            ctx.check(E is not None and E == Poly.sym("NS") * Poly.sym("NG") - Poly.sym("o") - 1, "C09.D2", mb.qualname, "cell bit position", expected="NSat*NSig - 1 - position (position counted from 0)", found=repr(E) if E is not None else show(sc["E"])[:80], **loc)
+            sets = [e for k_, c_, e in mcell["inserts"] if k_ == "dict"]
+            ctx.check(len(sets) == 1 and is_ordinal(sets[0].target[2], mcell), "C09.D2", mb.qualname, "cell map key", expected="ordinal of the set bit, counted from 1", found=show(sets[0].target[2])[:60] if sets else "no store", **loc)
+            if sets and msat["cont_out"] is not None and msig["cont_out"] is not None:
+                v = sets[0].term
+                okv = False
+                if v[0] == "tuple" and len(v[1]) == 2 and v[1][0][0] == "idx" and v[1][1][0] == "idx":
+                    si, gi = v[1][0][2], v[1][1][2]
+                    dm = si[2][1] if si[0] == "bin" and si[1] == "+" and si[3] == ("const", 1) and si[2][0] == "proj" and si[2][2] == 0 else None
+                    okv = (dm is not None and gi == ("proj", dm, 1) and dm[0] == "call" and dm[2] == ("builtin", "divmod") and len(dm[3]) == 2 and dm[3][0] == elem and is_count(dm[3][1], msig)
+                           and v[1][0][1] == msat["cont_out"] and v[1][1][1] == msig["cont_out"])
+                ctx.check(okv, "C09.D2", mb.qualname, "cell label", expected="(satmap[sat + 1], sigs[sig]) with (sat, sig) = divmod(position, <signal count>)", found=show(v)[:140], **eng.loc(mb, sets[0].node))
         elif len(sc["loop"]) != 2:
             ctx.undecided("C09.D2", mb.qualname, "cell scan nesting", detail=f"expected two nested loops (satellite outer, signal inner), found {len(sc['loop'])} loop level(s): an iteration shape this rule does not follow", **loc)
         else:
@@ -462,9 +499,13 @@ def run(eng, ctx, layout_only=False):
     msm_prefixes = {k[:3] for k in T.tables["RTCM_PAYLOADS_GET_MSM"]}
     ctx.check(msm_prefixes == set(orc["signals"]), "C09.D3", "RTCM_PAYLOADS_GET_MSM", "MSM identity prefixes", expected=str(sorted(orc["signals"])), found=str(sorted(msm_prefixes)), file=eng.repo.relpath("rtcmtypes_get_msm"), line=0)
     # default option selects RINEX (position 1)
-    for e in se.effects:
-        if e.kind == "call" and e.term[2][0] == "attr" and e.term[2][2] == "append" and e.loops and sig_field in scans and e.loops == scans[sig_field]["loop"]:
-            alts = leaves(e.term[3][0])
+    label_sources = [(e, e.term[3][0]) for e in se.effects if e.kind == "call" and e.term[2][0] == "attr" and e.term[2][2] == "append" and e.loops and sig_field in scans and e.loops == scans[sig_field]["loop"]]
+    if sig_field in model and model[sig_field].get("comp_elt") is not None:
+        label_sources.append((scans[sig_field]["effects"][0], model[sig_field]["comp_elt"]))
+    ctx.instance("signal label sources", len(label_sources), 1)
+    for e, src_t in label_sources:
+        if True:
+            alts = leaves(src_t)
             for g, leaf in alts:
                 pos = leaf[2][1] if leaf[0] == "idx" and is_const(leaf[2]) else None
                 two = any((c[0] == "cmp" and c[1] == "==" and c[3] == ("const", 2) and pol) or (c[0] == "cmp" and c[1] == "!=" and c[3] == ("const", 2) and not pol) for c, pol in g)
